@@ -14,22 +14,22 @@ use crate::layout::to_bytes;
 use serde_json::{json, Value};
 use simple_sds::bit_vector::BitVector;
 use simple_sds::int_vector::{IntVector, IntVectorMapper, IntVectorWriter};
-use simple_sds::ops::{Access, BitVec, Pop, Push, Rank, Resize, Select, SelectZero, Vector};
+use simple_sds::ops::{Access, BitVec, Pack, Pop, Push, Rank, Resize, Select, SelectZero, Vector};
 use simple_sds::raw_vector::{AccessRaw, PopRaw, PushRaw, RawVector, RawVectorMapper, RawVectorWriter};
 use simple_sds::serialize::{self, MappingMode, MemoryMap, MemoryMapped, Serialize};
 
-pub enum Obj { Raw(RawVector), Int1(IntVector), Bv(AnyBv) }
+pub enum Obj { Raw(RawVector), Int(IntVector), Bv(AnyBv) }
 
 fn kind_of(o: &Obj) -> &'static str {
-    match o { Obj::Raw(_) => "raw", Obj::Int1(_) => "int1", Obj::Bv(AnyBv::Plain(_)) => "plain", Obj::Bv(AnyBv::Sparse(_)) => "sparse", Obj::Bv(AnyBv::RL(_)) => "rl" }
+    match o { Obj::Raw(_) => "raw", Obj::Int(_) => "int", Obj::Bv(AnyBv::Plain(_)) => "plain", Obj::Bv(AnyBv::Sparse(_)) => "sparse", Obj::Bv(AnyBv::RL(_)) => "rl" }
 }
 
 fn clone_bv(b: &AnyBv) -> AnyBv { match b { AnyBv::Plain(x) => AnyBv::Plain(x.clone()), AnyBv::Sparse(x) => AnyBv::Sparse(x.clone()), AnyBv::RL(x) => AnyBv::RL(x.clone()) } }
 
-fn bytes_of(o: &Obj) -> Vec<u8> { match o { Obj::Raw(v) => to_bytes(v), Obj::Int1(v) => to_bytes(v), Obj::Bv(b) => conv::bytes_of(b) } }
+fn bytes_of(o: &Obj) -> Vec<u8> { match o { Obj::Raw(v) => to_bytes(v), Obj::Int(v) => to_bytes(v), Obj::Bv(b) => conv::bytes_of(b) } }
 
 fn same(a: &Obj, b: &Obj) -> bool {
-    match (a, b) { (Obj::Raw(x), Obj::Raw(y)) => x == y, (Obj::Int1(x), Obj::Int1(y)) => x == y, (Obj::Bv(x), Obj::Bv(y)) => conv::same(x, y), _ => false }
+    match (a, b) { (Obj::Raw(x), Obj::Raw(y)) => x == y, (Obj::Int(x), Obj::Int(y)) => x == y, (Obj::Bv(x), Obj::Bv(y)) => conv::same(x, y), _ => false }
 }
 
 fn scratch() -> std::path::PathBuf { serialize::temp_file_name("verif-life") }
@@ -43,12 +43,14 @@ fn observe(o: &Obj) -> (usize, usize, Runs) {
     }
     match o {
         Obj::Raw(v) => (v.len(), v.count_ones(), runs_from((0..v.len()).map(|i| v.bit(i)))),
-        Obj::Int1(v) => (v.len(), v.iter().filter(|x| *x != 0).count(), runs_from(v.iter().map(|x| x != 0))),
+        Obj::Int(v) => (v.len(), 0, Vec::new()),       // integer vectors are compared item by item (items_of)
         Obj::Bv(AnyBv::Plain(b)) => (b.len(), b.count_ones(), runs_from(b.iter())),
         Obj::Bv(AnyBv::Sparse(b)) => (b.len(), b.count_ones(), runs_from(b.iter())),
         Obj::Bv(AnyBv::RL(b)) => (b.len(), b.count_ones(), runs_from(b.iter())),
     }
 }
+
+fn items_of(o: &Obj) -> Value { match o { Obj::Int(v) => json!([v.len(), v.width(), v.iter().collect::<Vec<u64>>()]), _ => json!(null) } }
 
 fn flags_of(o: &Obj) -> Value {
     match o {
@@ -61,9 +63,15 @@ fn flags_of(o: &Obj) -> Value {
 fn canonical(kind: &str, len: usize, runs: &Runs, flags: &Value) -> Obj {
     match kind {
         "raw" => { let mut v = RawVector::with_len(len, false); for p in bv::positions(runs) { v.set_bit(p, true); } Obj::Raw(v) },
-        "int1" => { let mut v = IntVector::with_len(len, 1, 0).unwrap(); for p in bv::positions(runs) { v.set(p, 1); } Obj::Int1(v) },
         k => Obj::Bv(conv::canonical(k, len, runs, flags)),
     }
+}
+
+/// The integer vector built directly from (width, items).
+fn canonical_int(width: usize, items: &[u64]) -> Obj {
+    let mut v = IntVector::with_len(items.len(), width, 0).unwrap();
+    for (i, x) in items.iter().enumerate() { v.set(i, *x); }
+    Obj::Int(v)
 }
 
 fn scaled_runs(bits: &[u64], k: usize) -> (usize, Runs) {
@@ -98,6 +106,7 @@ fn via_file<T: Serialize>(x: &T) -> Result<T, String> {
 fn apply(o: Obj, c: &Value, k: usize, salt: usize) -> Result<Obj, String> {
     let op = c["op"].as_str().unwrap();
     let bit = || c["b"].as_u64().unwrap() != 0;
+    let val = || c["b"].as_u64().unwrap();
     let num = |f: &str| c[f].as_u64().unwrap() as usize;
     Ok(match (op, o) {
         ("push", Obj::Raw(mut v)) => {
@@ -109,26 +118,27 @@ fn apply(o: Obj, c: &Value, k: usize, salt: usize) -> Result<Obj, String> {
             }
             Obj::Raw(v)
         },
-        ("push", Obj::Int1(mut v)) => { if salt % 2 == 0 { for _ in 0..k { v.push(bit() as u64); } } else { v.extend(std::iter::repeat(bit() as u64).take(k)); } Obj::Int1(v) },
+        ("push", Obj::Int(mut v)) => { if salt % 2 == 0 { for _ in 0..k { v.push(val()); } } else { v.extend(std::iter::repeat(val()).take(k)); } Obj::Int(v) },
         ("pop", Obj::Raw(mut v)) => {
             if salt % 2 == 0 { for _ in 0..k { v.pop_bit(); } }
             else { let mut left = k; while left > 0 { let w = left.min(37); unsafe { v.pop_int(w); } left -= w; } }
             Obj::Raw(v)
         },
-        ("pop", Obj::Int1(mut v)) => { for _ in 0..k { v.pop(); } Obj::Int1(v) },
+        ("pop", Obj::Int(mut v)) => { for _ in 0..k { v.pop(); } Obj::Int(v) },
         ("set", Obj::Raw(mut v)) => { let i = num("i"); for j in 0..k { v.set_bit(i * k + j, bit()); } Obj::Raw(v) },
-        ("set", Obj::Int1(mut v)) => { let i = num("i"); for j in 0..k { v.set(i * k + j, bit() as u64); } Obj::Int1(v) },
+        ("set", Obj::Int(mut v)) => { let i = num("i"); for j in 0..k { v.set(i * k + j, val()); } Obj::Int(v) },
         ("resize", Obj::Raw(mut v)) => { v.resize(num("n") * k, bit()); Obj::Raw(v) },
-        ("resize", Obj::Int1(mut v)) => { v.resize(num("n") * k, bit() as u64); Obj::Int1(v) },
+        ("resize", Obj::Int(mut v)) => { v.resize(num("n") * k, val()); Obj::Int(v) },
+        ("pack", Obj::Int(mut v)) => { v.pack(); Obj::Int(v) },
         ("clear", Obj::Raw(mut v)) => { v.clear(); Obj::Raw(v) },
-        ("clear", Obj::Int1(mut v)) => { v.clear(); Obj::Int1(v) },
+        ("clear", Obj::Int(mut v)) => { v.clear(); Obj::Int(v) },
         ("compl", Obj::Raw(v)) => Obj::Raw(v.complement()),
         ("to", o) => {
             let to = c["k"].as_str().unwrap();
             match (o, to) {
                 (Obj::Raw(v), "plain") => Obj::Bv(AnyBv::Plain(BitVector::from(v))),
                 (Obj::Raw(v), "raw") => Obj::Raw(v.clone()),
-                (Obj::Int1(v), "raw") => Obj::Raw(RawVector::from(v)),
+                (Obj::Int(v), "raw") => Obj::Raw(RawVector::from(v)),
                 (Obj::Bv(AnyBv::Plain(b)), "raw") => Obj::Raw(if salt % 2 == 0 { RawVector::from(b) } else { let r: &RawVector = b.as_ref(); r.clone() }),
                 (Obj::Bv(b), t) => Obj::Bv(conv::convert(&b, t, salt)),
                 (o, t) => return Err(format!("TOOL-ERROR: no conversion {} -> {}", kind_of(&o), t)),
@@ -136,10 +146,10 @@ fn apply(o: Obj, c: &Value, k: usize, salt: usize) -> Result<Obj, String> {
         },
         ("enable", Obj::Bv(mut b)) => { conv::enable(&mut b, c["s"].as_str().unwrap()); Obj::Bv(b) },
         ("clone", Obj::Raw(v)) => Obj::Raw(v.clone()),
-        ("clone", Obj::Int1(v)) => Obj::Int1(v.clone()),
+        ("clone", Obj::Int(v)) => Obj::Int(v.clone()),
         ("clone", Obj::Bv(b)) => Obj::Bv(clone_bv(&b)),
         ("reload", Obj::Raw(v)) => Obj::Raw(reload(&v)?),
-        ("reload", Obj::Int1(v)) => Obj::Int1(reload(&v)?),
+        ("reload", Obj::Int(v)) => Obj::Int(reload(&v)?),
         ("reload", Obj::Bv(AnyBv::Plain(b))) => {
             // the three optional support structures can each be skipped, whichever are present, through readers that return
             // everything asked for and through readers that return less per call
@@ -156,7 +166,7 @@ fn apply(o: Obj, c: &Value, k: usize, salt: usize) -> Result<Obj, String> {
         ("reload", Obj::Bv(AnyBv::Sparse(b))) => Obj::Bv(AnyBv::Sparse(reload(&b)?)),
         ("reload", Obj::Bv(AnyBv::RL(b))) => Obj::Bv(AnyBv::RL(reload(&b)?)),
         ("file", Obj::Raw(v)) => Obj::Raw(via_file(&v)?),
-        ("file", Obj::Int1(v)) => Obj::Int1(via_file(&v)?),
+        ("file", Obj::Int(v)) => Obj::Int(via_file(&v)?),
         ("file", Obj::Bv(AnyBv::Plain(b))) => Obj::Bv(AnyBv::Plain(via_file(&b)?)),
         ("file", Obj::Bv(AnyBv::Sparse(b))) => Obj::Bv(AnyBv::Sparse(via_file(&b)?)),
         ("file", Obj::Bv(AnyBv::RL(b))) => Obj::Bv(AnyBv::RL(via_file(&b)?)),
@@ -179,17 +189,17 @@ fn apply(o: Obj, c: &Value, k: usize, salt: usize) -> Result<Obj, String> {
             let _ = std::fs::remove_file(&path);
             Obj::Raw(r?)
         },
-        ("writer", Obj::Int1(v)) => {
+        ("writer", Obj::Int(v)) => {
             let path = scratch();
             let r = (|| -> Result<IntVector, String> {
-                let mut w = if salt % 5 == 4 { IntVectorWriter::new(&path, 1) } else { IntVectorWriter::with_buf_len(&path, 1, [64, 128, 1024, 4096][salt % 4]) }.map_err(|e| e.to_string())?;
+                let mut w = if salt % 5 == 4 { IntVectorWriter::new(&path, v.width()) } else { IntVectorWriter::with_buf_len(&path, v.width(), [64, 128, 1024, 4096][salt % 4]) }.map_err(|e| e.to_string())?;
                 if salt % 2 == 0 { for x in v.iter() { w.push(x); } } else { w.extend(v.iter().filter(|_| true)); }
                 if w.len() != v.len() { return Err(format!("writer reports len {} after {} items", w.len(), v.len())); }
                 if salt % 3 == 0 { drop(w); } else { w.close().map_err(|e| e.to_string())?; }
                 serialize::load_from::<IntVector, _>(&path).map_err(|e| format!("load_from writer file failed: {}", e))
             })();
             let _ = std::fs::remove_file(&path);
-            Obj::Int1(r?)
+            Obj::Int(r?)
         },
         ("mapper", o) => {
             // an observation: the serialized vector viewed through a memory map (after one leading element) shows the same bits
@@ -198,7 +208,7 @@ fn apply(o: Obj, c: &Value, k: usize, salt: usize) -> Result<Obj, String> {
                 let mut f = std::fs::File::create(&path).map_err(|e| e.to_string())?;
                 let lead: usize = salt % 3;
                 for j in 0..lead { (j as u64 + 77).serialize(&mut f).map_err(|e| e.to_string())?; }
-                match &o { Obj::Raw(v) => v.serialize(&mut f), Obj::Int1(v) => v.serialize(&mut f), _ => unreachable!() }.map_err(|e| e.to_string())?;
+                match &o { Obj::Raw(v) => v.serialize(&mut f), Obj::Int(v) => v.serialize(&mut f), _ => unreachable!() }.map_err(|e| e.to_string())?;
                 drop(f);
                 let map = MemoryMap::new(&path, MappingMode::ReadOnly).map_err(|e| format!("MemoryMap::new failed: {}", e))?;
                 match &o {
@@ -209,9 +219,9 @@ fn apply(o: Obj, c: &Value, k: usize, salt: usize) -> Result<Obj, String> {
                         if let Some(i) = (0..v.len()).find(|i| m.bit(*i) != v.bit(*i)) { return Err(format!("mapper bit {} differs", i)); }
                         if m.map_offset() != lead || m.map_offset() + m.map_len() != map.len() { return Err(format!("mapper offset {} len {} in a map of {} elements", m.map_offset(), m.map_len(), map.len())); }
                     },
-                    Obj::Int1(v) => {
+                    Obj::Int(v) => {
                         let m = IntVectorMapper::new(&map, lead).map_err(|e| format!("IntVectorMapper::new failed: {}", e))?;
-                        if m.len() != v.len() || m.width() != 1 { return Err(format!("mapper len {} width {} != {} / 1", m.len(), m.width(), v.len())); }
+                        if m.len() != v.len() || m.width() != v.width() { return Err(format!("mapper len {} width {} != {} / {}", m.len(), m.width(), v.len(), v.width())); }
                         if !m.iter().eq(v.iter()) { return Err("mapper items differ".to_string()); }
                         if m.map_offset() != lead || m.map_offset() + m.map_len() != map.len() { return Err(format!("mapper offset {} len {} in a map of {} elements", m.map_offset(), m.map_len(), map.len())); }
                     },
@@ -239,12 +249,18 @@ fn tag_of(prev_kind: &str, c: &Value) -> String {
 pub fn replay_case(case: &Value, scales: &[usize], own: &[String], tally: &mut Tally) {
     tally.cases += 1;
     let steps = case["steps"].as_array().unwrap();
-    let init = case["init"].as_str().unwrap();
+    let init = case["init"]["kind"].as_str().unwrap();
+    let init_w = case["init"]["w"].as_u64().unwrap() as usize;
     let ckey = hstr(&case.to_string());
+    // One abstract bit stands for k real bits.  For an integer vector of width 1 the items are the bits and scaling commutes with
+    // every conversion; for wider items it does not (k copies of an item are not k copies of each of its bits), so behaviours that
+    // start from a wider integer vector are replayed at scale 1 only - their widths (3, 30) put word boundaries within a few items.
+    let one = [1usize];
+    let scales: &[usize] = if init == "int" && init_w > 1 { &one } else { scales };
     for (si, k) in scales.iter().enumerate() {
         let k = *k;
         let salt0 = (ckey as usize).wrapping_add(si * 7);
-        let mut o = Some(canonical(init, 0, &Vec::new(), &json!({})));
+        let mut o = Some(if init == "int" { Obj::Int(IntVector::new(init_w).unwrap()) } else { canonical(init, 0, &Vec::new(), &json!({})) });
         let mut prev_kind = init.to_string();
         for (i, s) in steps.iter().enumerate() {
             let c = &s["c"];
@@ -252,8 +268,10 @@ pub fn replay_case(case: &Value, scales: &[usize], own: &[String], tally: &mut T
             let owned = own.is_empty() || own.iter().any(|p| tag.starts_with(p.as_str()));
             let ctx = |what: &str| json!({"kind": "life", "scale": k, "init": init, "calls": steps.iter().take(i + 1).map(|x| x["c"].clone()).collect::<Vec<Value>>(), "step": i, "tag": tag, "what": what});
             let bits: Vec<u64> = s["bits"].as_array().unwrap().iter().map(|b| b.as_u64().unwrap()).collect();
-            let (elen, eruns) = scaled_runs(&bits, k);
             let ekind = s["kind"].as_str().unwrap();
+            let ew = s["w"].as_u64().unwrap() as usize;
+            let eitems: Vec<u64> = if ekind == "int" { bits.iter().flat_map(|x| std::iter::repeat(*x).take(k)).collect() } else { Vec::new() };
+            let (elen, eruns) = if ekind == "int" { (eitems.len(), Vec::new()) } else { scaled_runs(&bits, k) };
             let salt = salt0.wrapping_add(i * 3);
             let cur = o.take().unwrap();
             let r = guarded(|| -> Result<(Obj, Vec<(&'static str, Value, Value)>), String> {
@@ -261,10 +279,15 @@ pub fn replay_case(case: &Value, scales: &[usize], own: &[String], tally: &mut T
                 let mut out: Vec<(&'static str, Value, Value)> = Vec::new();
                 let (len, ones, runs) = observe(&n);
                 out.push(("kind", json!(ekind), json!(kind_of(&n))));
-                out.push(("content [len, runs of ones]", json!([elen, bv::runs_json(&eruns)]), json!([len, bv::runs_json(&runs)])));
-                out.push(("count_ones", json!(bv::ones_of(&eruns)), json!(ones)));
+                if ekind == "int" {
+                    out.push(("content [len, width, items]", json!([elen, ew, eitems]), items_of(&n)));
+                    out.push(("len", json!(elen), json!(len)));
+                } else {
+                    out.push(("content [len, runs of ones]", json!([elen, bv::runs_json(&eruns)]), json!([len, bv::runs_json(&runs)])));
+                    out.push(("count_ones", json!(bv::ones_of(&eruns)), json!(ones)));
+                }
                 if ekind == "plain" { out.push(("support flags", s["flags"].clone(), flags_of(&n))); }
-                let canon = canonical(ekind, elen, &eruns, &s["flags"]);
+                let canon = if ekind == "int" { canonical_int(ew, &eitems) } else { canonical(ekind, elen, &eruns, &s["flags"]) };
                 out.push(("== the object built directly from (kind, bits, supports)", json!(true), json!(same(&n, &canon))));
                 out.push(("same bytes as the object built directly from (kind, bits, supports)", json!(true), json!(bytes_of(&n) == bytes_of(&canon))));
                 if let (Obj::Bv(b), Obj::Bv(cb)) = (&n, &canon) {
